@@ -1,0 +1,19 @@
+//go:build verif
+
+// Contracts for package templates, checked by /verif (ssovc). Comment-only file.
+package templates
+
+// The wrapper does what callers are told the Template interface does: it renders to the writer and touches
+// nothing else of the response — in particular no header, so the Content-Type (with its charset) is the one
+// net/http derives for the rendered page.
+//@ func (ht *HTMLTemplate) ExecuteTemplate(rw io.Writer, path string, data interface{})
+//@   modifies rw.$status, rw.$bodyWritten
+//@   ensures [C20 C18] renders_and_leaves_the_response_headers_alone: called(@ExecuteTemplate#1) && arg(@ExecuteTemplate#1, 0) == ht.templates && arg(@ExecuteTemplate#1, 1) == rw && arg(@ExecuteTemplate#1, 2) == path && arg(@ExecuteTemplate#1, 3) == data
+//@   ensures [C20 C18] first_status_wins: old(rw.$status) != 0 ==> rw.$status == old(rw.$status)
+
+// Building the template set parses constant template text and touches nothing that exists (assumed: html/template).
+//@ func NewHTMLTemplate() *HTMLTemplate
+//@   trusted
+//@   modifies nothing
+//@   fresh result
+//@   ensures result != nil
